@@ -442,7 +442,12 @@ def _own_signature(func):
 
 
 def autoforwards_function(func, args, kwargs):
-    sig = _own_signature(func)
+    try:
+        sig = _own_signature(func)
+    except (ValueError, TypeError):
+        # eg. a C wrapper such as functools.lru_cache's, which only has a
+        # signature through __wrapped__: nothing to refine
+        raise UnknownForwards
     if not any_params_star(sig):
         raise UnknownForwards
     func_ast = _util.get_ast(func)
